@@ -115,7 +115,7 @@ class Tracker:
         self.reused = 0
         self.pool = pool  # same_object steps: objects built by earlier calls of the step, by (tag, build key)
         self.pooled = 0
-        self.representation = None  # None | "little" | "frozen": the container of bit-string arguments (same bit sequence)
+        self.representation = None  # None | "little" | "frozen": the container of bit-string arguments (same bit sequence); "bytearray": of octet strings
 
     def obj(self, tag: str, key: Any, build: Callable[[], Any], name: str = "", snapshot: bool = True):
         """An OBJECT argument (parsed / constructed through the library): built by ``build()`` - or, inside a same_object step,
@@ -156,11 +156,15 @@ class Tracker:
     def bits(self, s: str, endian: str = "big", name: str = ""):
         from bitarray import bitarray, frozenbitarray
 
+        if not isinstance(s, str):  # a refused variant of the call: a value of the wrong type (None, a float) is handed over as it is
+            return s
         if self.representation == "frozen":
             return self.track(frozenbitarray(s, endian=endian), name)
         return self.track(bitarray(s, endian="little" if self.representation == "little" else endian), name)
 
     def bytearray(self, h: str, name: str = ""):
+        if not isinstance(h, str):
+            return h
         return self.track(bytearray(bytes.fromhex(h)), name)
 
     def np(self, lst, name: str = ""):
@@ -168,8 +172,11 @@ class Tracker:
 
         return self.track(numpy.array(lst), name)
 
-    @staticmethod
-    def bytes(h: str) -> bytes:
+    def bytes(self, h: str) -> bytes:
+        if not isinstance(h, str):  # a wrong-typed value of a refused variant, handed over as it is
+            return h
+        if self.representation == "bytearray":  # the same octets in another container (tracked: the call must leave it unchanged)
+            return self.track(bytearray(bytes.fromhex(h)))
         return bytes.fromhex(h)
 
     def changed(self) -> List[dict]:
@@ -204,6 +211,8 @@ def obs(o: Any, depth: int = 0, path: tuple = (), top: bool = False) -> Any:
     if o is None or isinstance(o, (bool, int, str)):
         if isinstance(o, enum.Enum):  # IntEnum / StrEnum
             return f"{type(o).__name__}.{o.name}"
+        if isinstance(o, str) and " at 0x" in o:  # a repr an entry script returned as a value: addresses are not part of the observation
+            return _san(o)
         return o
     if isinstance(o, float):
         return {"float": repr(o)}
@@ -244,12 +253,17 @@ def obs(o: Any, depth: int = 0, path: tuple = (), top: bool = False) -> Any:
     if isinstance(o, (set, frozenset)):
         return {"set": sorted((obs(v, depth + 1, p) for v in o), key=lambda x: json.dumps(x, sort_keys=True))}
     if _is_lib_obj(o) or _is_kaitai(o):
+        # order of evaluation: the library's own serialisation first, then the attribute tree, `repr` last - a `__repr__` that
+        # re-binds or lazily resolves something (e.g. the context of a shared sub-object) must not repair the object before it is
+        # serialised and its attributes are recorded
         out: Dict[str, Any] = {"type": f"{mod}.{type(o).__qualname__}"}
+        ser = _serialise(o) if top else None
+        fields = _fields(o, depth, p)
         if top:
             out["repr"] = _guard(lambda: _san(repr(o)))
-        out["fields"] = _fields(o, depth, p)
+        out["fields"] = fields
         if top:
-            out["ser"] = _serialise(o)
+            out["ser"] = ser
         return out
     if callable(o):
         return {"callable": getattr(o, "__qualname__", tn)}
@@ -439,7 +453,10 @@ def run_calls_here(calls: List[dict]) -> List[dict]:
     shared pool of object arguments (an object argument with the same tag and build key is built once and passed again);
     {op: "serialise_later", e, a, seq}: the calls of seq run and keep their results, then every result is observed (serialised
     through the library, repr, attribute tree) once more, last first -> {"multi": [records..., later records (reversed)...]}.
-    A plain call may carry r: "little" | "frozen": its bit-string arguments are built as little-endian / frozen bitarrays."""
+    {op: "keep_alive", e, a, seq}: as serialise_later for a large batch (the judge compares the later observation of every
+    result with its first observation in the same child; only a sample is compared with a fresh state).
+    A plain call may carry r: "little" | "frozen": its bit-string arguments are built as little-endian / frozen bitarrays;
+    r: "bytearray": its octet-string arguments are handed over as bytearray instead of bytes."""
     out = []
     for c in calls:
         e = CATALOGUE.get(c["e"])
@@ -459,6 +476,20 @@ def run_calls_here(calls: List[dict]) -> List[dict]:
                 results.append(res)
             later = []
             for r, res in reversed(list(zip(firsts, results))):  # observe (serialise, repr, fields) every result again, last first
+                later.append({k: v for k, v in r.items() if k != "ok"} if "raised" in r else {**{k: v for k, v in r.items() if k != "ok"}, "ok": obs(res, top=True)})
+            out.append({"multi": firsts + later, "touched": len(results)})
+        elif op == "keep_alive":
+            # a batch of calls whose results all stay alive; afterwards every result is observed once more (last first)
+            firsts, results = [], []
+            for q in c["seq"]:
+                eq = CATALOGUE.get(q["e"])
+                if eq is None:
+                    raise HarnessError(f"unknown catalogue entry {q['e']}")
+                r, res, _ = _run_one(eq, q["a"], representation=q.get("r"))
+                firsts.append(r)
+                results.append(res)
+            later = []
+            for r, res in reversed(list(zip(firsts, results))):
                 later.append({k: v for k, v in r.items() if k != "ok"} if "raised" in r else {**{k: v for k, v in r.items() if k != "ok"}, "ok": obs(res, top=True)})
             out.append({"multi": firsts + later, "touched": len(results)})
         elif op == "scribble_repeat":
@@ -1250,6 +1281,24 @@ def reject_candidates(e: Entry) -> List[dict]:
                 if key not in seen:
                     seen.add(key)
                     out.append({"e": e.id, "a": a, "arg": n + ("|" + flags if flags else "")})
+    return out
+
+
+def wrong_type_candidates(e: Entry) -> List[dict]:
+    """Calls of the entry with exactly one argument replaced by a value of the wrong TYPE (a caller's mistake the library refuses -
+    possibly after it has begun to work): None or a float where a bit / octet string or an integer is expected, a numeric string
+    where an integer is expected.  (No integer where a buffer is expected: `bitarray(7)` is seven uninitialised bits.)
+    Deterministic; whether and how the library refuses them is observed, not assumed."""
+    import random
+
+    base = {n: s.canon(random.Random(f"C19/{e.id}/0"), 0) for n, s in e.args.items()}
+    out = []
+    for n, sp in e.args.items():
+        v = base[n]
+        if isinstance(v, bool) or isinstance(sp, (Choice, Const, Seq)):
+            continue
+        alts = [None, 1.5] if isinstance(v, str) else [None, "7", 1.5] if isinstance(v, int) else []
+        out += [{"e": e.id, "a": {**base, n: w}, "arg": n} for w in alts]
     return out
 
 
